@@ -32,7 +32,8 @@ Definition acache_or_new (o : option (cache (K := K) (RK := RK))) := match o wit
 Definition vz_opt (o : option Z) : V := match o with Some z => VI z | None => VN end.
 Definition vs_opt (o : option (list Z)) : V := match o with Some s => VS s | None => VN end.
 
-(* what the model returns for a call, as (value, cache afterwards) of the program *)
+(* what the model returns for a call, as (value, cache afterwards) of the program.  When o_key is an error both sides of a tie
+   collapse to that error: the cache after a FAILING call is tied separately, in Proofs/Flow_cache_absprefix.v *)
 Definition alift (oc : Cache.outcome (K := K) * cache (K := K) (RK := RK)) : res (V * V) :=
   let* k := o_key (fst oc) in Ok (VO (AKey k), VO (ACache (snd oc))).
 Definition avalue_and_param (i : nat) (r : res (V * list V)) : res (V * V) :=
